@@ -80,7 +80,7 @@ using i128 = __int128;
 
 enum Fn { ToChars, FromIntT, FromIntN, ToString, RoundTrip };
 char const* const fn_names[] = {"to_chars", "from_integer_term", "from_integer_noterm", "to_string", "roundtrip"};
-enum Mode { Heap = 0, Canary = 1 };
+enum Mode { Heap = 0, Canary = 1, Null = 2 }; // Null: the valid empty range [nullptr, nullptr) (a default-constructed span<char>)
 
 struct Case {
     int fn;
@@ -95,7 +95,7 @@ struct Case {
 auto show_case(Case const& k) -> std::string
 {
     return std::string(fn_names[k.fn]) + " " + k.ty + " " + (k.sgn ? std::to_string(k.s) : std::to_string(k.u)) + " " + std::to_string(k.base) + " " + std::to_string(k.len) + " "
-         + (k.mode == Heap ? "heap" : "canary");
+         + (k.mode == Heap ? "heap" : (k.mode == Canary ? "canary" : "null"));
 }
 template <typename T>
 auto mk(int fn, T v, int base, int len, int mode) -> Case
@@ -144,6 +144,7 @@ struct Buffers { // one exact-size heap block per length (ASan red zones on both
     unsigned char* guarded[kMaxLen + 1]{};
     auto get(int len, int mode) -> char*
     {
+        if (mode == Null) { return nullptr; } // only ever used with len == 0
         if (mode == Heap) {
             if (heap[len] == nullptr) {
                 // ASan turns malloc(0) into a 1-byte allocation, which would hide a one-byte write into an empty
@@ -163,7 +164,7 @@ struct Buffers { // one exact-size heap block per length (ASan red zones on both
     // offset (relative to the buffer start) of the first changed guard byte, or INT_MIN when intact
     auto damaged(int len, int mode) -> int
     {
-        if (mode == Heap) { return INT32_MIN; }
+        if (mode != Canary) { return INT32_MIN; }
         auto* g = guarded[len];
         for (int i = 0; i < kGuard; ++i) {
             if (g[i] != kCanary) { return i - kGuard; }
@@ -180,7 +181,7 @@ Buffers g_buf;
 struct Local {
     std::uint64_t ev[5]{};
     std::uint64_t nt{0};
-    std::uint64_t calls{0}, exact{0}, tooSmall{0}, zeroLen{0}, negative{0}, base10{0}, negNon10{0}, roomy{0};
+    std::uint64_t calls{0}, exact{0}, tooSmall{0}, zeroLen{0}, negative{0}, base10{0}, negNon10{0}, roomy{0}, nullRange{0};
     std::uint64_t tsCalls{0}, tsExact{0}, tsNeg{0};
 };
 Local g_loc;
@@ -201,6 +202,7 @@ void flush_stats()
     put("fmt.buffer_too_small", g_loc.tooSmall, g_loc.calls);
     put("fmt.buffer_zero_length", g_loc.zeroLen, g_loc.calls);
     put("fmt.buffer_roomy", g_loc.roomy, g_loc.calls);
+    put("fmt.buffer_null_empty_range", g_loc.nullRange, g_loc.calls);
     put("fmt.value_negative", g_loc.negative, g_loc.calls);
     put("fmt.base_10", g_loc.base10, g_loc.calls);
     put("fmt.negative_and_base_not_10", g_loc.negNon10, g_loc.calls);
@@ -251,6 +253,7 @@ void one_to_chars(T v, int base, int len, int mode, char const* ref, int n)
     auto const r = etl::to_chars(b, b + len, v, base);
     ++g_loc.ev[ToChars];
     account(v, base, len, n);
+    g_loc.nullRange += (mode == Null);
     int dmg = g_buf.damaged(len, mode);
     if (dmg != INT32_MIN) {
         FAIL("to_chars", k, "to_chars<%s>(%s, base %d) into a %d-byte buffer changed the byte at offset %d (outside [first,last)); std needs %d characters", tname<T>(), vstr(v).c_str(), base, len, dmg, n);
@@ -351,6 +354,12 @@ void point(T v, int base, bool withFromInteger)
                 if (len == n + 2) { one_from_integer<T, true>(v, base, n + 3, mode, ref, n); }
             }
         }
+    }
+    // the empty range at the null pointer is a valid range too: value_too_large / overflow, and no contract may fire
+    one_to_chars(v, base, 0, Null, ref, n);
+    if (withFromInteger) {
+        one_from_integer<T, true>(v, base, 0, Null, ref, n);
+        one_from_integer<T, false>(v, base, 0, Null, ref, n);
     }
     if (withFromInteger) {
         // the no-terminator option is what to_chars uses; run it directly on the three lengths around the exact fit
@@ -500,6 +509,7 @@ void point_light(T v, int base)
     one_to_chars(v, base, n - 1, Canary, ref, n);
     one_from_integer<T, true>(v, base, n + 1, Heap, ref, n);
     one_from_integer<T, true>(v, base, n, Canary, ref, n);
+    one_to_chars(v, base, 0, Null, ref, n);
     one_roundtrip(v, base, ref, n);
 }
 
@@ -723,7 +733,8 @@ std::string vf_replay(std::string const& sub, std::string const& cs)
         if (std::string(fn) == fn_names[i]) { f = i; }
     }
     if (f < 0 || base < 2 || base > 36 || len < 0 || len > kMaxLen) { return "unparsable case string: " + cs; }
-    int const m = std::string(mode) == "canary" ? Canary : Heap;
+    int const m = std::string(mode) == "canary" ? Canary : (std::string(mode) == "null" ? Null : Heap);
+    if (m == Null && len != 0) { return "the null range is empty: length must be 0 in " + cs; }
     bool done   = false;
 #define X(T, N)                                                                                                        \
     if (!done && std::string(ty) == (N)) {                                                                             \
